@@ -16,8 +16,9 @@ PLANS = {
         ("functions", "SerdeMC_func.cfg", dict(MaxSlots=3, MaxGraphs=2, MaxNodes=2, Irvs="{9, 10, 11}")),
     ],
     "thorough": [
-        ("graphs-ir11", "SerdeMC_valid.cfg", dict(MaxSlots=4, MaxGraphs=3, MaxNodes=3, Irvs="{11}", WithFunc='"no"')),
-        ("graphs-ir9", "SerdeMC_valid.cfg", dict(MaxSlots=3, MaxGraphs=3, MaxNodes=3, Irvs="{9, 10}", WithFunc='"no"')),
+        ("graphs-ir11", "SerdeMC_valid.cfg", dict(MaxSlots=4, MaxGraphs=3, MaxNodes=2, Irvs="{11}", WithFunc='"no"')),
+        ("graphs-3nodes", "SerdeMC_valid.cfg", dict(MaxSlots=3, MaxGraphs=2, MaxNodes=3, Irvs="{11}", WithFunc='"no"')),
+        ("graphs-ir9", "SerdeMC_valid.cfg", dict(MaxSlots=3, MaxGraphs=3, MaxNodes=2, Irvs="{9, 10}", WithFunc='"no"')),
         ("functions", "SerdeMC_func.cfg", dict(MaxSlots=4, MaxGraphs=3, MaxNodes=2, Irvs="{9, 10, 11}")),
     ],
 }
@@ -32,7 +33,7 @@ def run(ctx):
         cfg = S.write_cfg(ctx, base, f"c02_{tag}.cfg", **kv)
         consts[tag] = S.constants_of(cfg)
         res = S.run_mc(ctx, cfg, f"mc-{tag}")
-        results, lost = S.pool_map(R.work_c02, list(S.chunks_of(res.out_path, 400, ctx.seed)))
+        results, lost = S.pool_map(R.work_c02, S.chunks_of(res.out_path, 400, ctx.seed), stream=True)
         if lost:
             raise MachineryError(f"{len(lost)} replay chunks of {tag} did not complete")
         for r in results:
